@@ -269,7 +269,7 @@ def rand_polygon(rng, where=None, kind=None):
     lat = rng.uniform(-1.2, 1.2) if where is None else where[0]
     lng = rng.uniform(-3.1, 3.1) if where is None else where[1]
     radius = rng.choice([0.002, 0.01, 0.03, 0.08])
-    if kind in ("anti", "anti-needle"):
+    if kind in ("anti", "anti-needle", "anti-holes"):
         lng = _m.pi - rng.uniform(0, radius * 0.8) * rng.choice([-1, 1])
     n = rng.randrange(3, 9)
     if kind == "concave":
@@ -286,7 +286,7 @@ def rand_polygon(rng, where=None, kind=None):
     else:
         outer = ngon(lat, lng, radius, n, rng, jitter=0.25, phase=rng.uniform(0, 1))
     loops = [outer]
-    if kind == "holes":
+    if kind in ("holes", "anti-holes"):
         nh = rng.randrange(1, 4)
         for h in range(nh):
             ang = 2 * _m.pi * h / nh
